@@ -38,6 +38,17 @@ CHECKS.update({
   note="Trusted: z3 (Int + Seq theories), the base-256 digit lemma (discharged as a bit-vector query per width), is_ascii as an uninterpreted predicate. Executor/gateway/report/job-JSON encodings go through pickle/orjson/pydantic (C code) and are outside this engine."),
 })
 
+CHECKS.update({
+ "C10": dict(category="other", design_ref="DESIGN.md §4 C10",
+  technique="solver-driven exhaustive enumeration (CrossHair/z3 decision tree) of node configurations through the real node2task/graph2job + runner.run, against an oracle",
+  text="lower-args: for every arity (<=3 quick, <=4 thorough), every injective placement of up to 2-3 upstream inputs among the positional arguments, static values from a palette, optional keyword, source kinds (default output, second output of a generator, shared source) and construction mode (hand-written Node / fluent.Node with explicit or appended input names): graph2job yields one task per node and one edge per input and, executed by the real runner.run, the callable receives exactly the declared statics and upstream values in the declared positions. lower-yields: for N=1..12 declared outputs (fluent '0'..'N-1', hand-written sorted and unsorted names) and K=0..14 yielded values: K=N binds value i to the output/coordinate declared i-th and is_last_output_of agrees with what is published last; K!=N raises inside run. Decision trees exhausted.",
+  note="Trusted: z3/CrossHair, cloudpickle/pydantic (C code, concrete values only). Values are palette picks, so the solver's role is choosing the configuration. Assumed: a static string never equals one of the node's input names (ambiguous by construction). Outside: entrypoints by name, package environments."),
+ "C16": dict(category="other", design_ref="DESIGN.md §4 C16",
+  technique="solver-driven exhaustive enumeration (CrossHair/z3 decision tree) of DAG edge sets through the real precompute, against an independent reference",
+  text="Every DAG on <=4 tasks (quick; <=5, and 6 single-output, thorough) with per ordered pair none/positional/keyword/double edge and 1-2 outputs per producer goes through the real scheduler.graph.precompute (python fallback). An independent reference in the harness (union-find components, BFS distances, longest path, nearest common descendant) must agree on: components = weakly connected components, heaviest first; sources; consumers/inputs/outputs per task; depth; value = depth - distance to nearest sink; pairwise distance matrix.",
+  note="Trusted: z3/CrossHair, the reference implementation in vf/h_presched.py. Stubs: coptrs absent, thread pool map sequential. Outside: the coptrs native path, larger DAGs."),
+})
+
 NA_REASON = "check not built yet in this round (planned, see DESIGN.md §4); not claimed until its harness exists and passes on the unchanged tree"
 
 def main():
